@@ -309,3 +309,12 @@ claim(
     "abstract interpretation of the recorder pipeline over an indicator-algebra array domain and a write-log buffer domain; call-order extraction from the real step functions with stubbed parts; counting-loop summary; sibling call-site tables",
     "DESIGN.md §5 C03",
 )
+
+claim(
+    "C24",
+    "other",
+    "Median filter: binary_median_filter interpreted on concrete small volumes of free symbols, for five kernel shapes and six padding configurations (constant / edge / reflect / symmetric faces, per-face widths and fill values, the shipped substrate pattern): every voxel is round(box sum / box size) over the odd box centred on it in the volume padded face by face, checked against an independent pointwise padding oracle; for binary data and odd size that is the majority (arithmetic fact, not read off the code). The module applies it num_repeats times through the straight-through estimator. Pillar discretization: compute_allowed_indices equals, as a duplicate-free set, the columns with background only at the top end and (when requested) at most one distinct non-background material, for heights 1..4, 2..4 materials, every background index (the filter depends only on #distinct non-background values and background presence, all classes realised); nearest_index yields per candidate and pillar the documented distance (Euclidean, or mean|diff-diff| + |mean-mean|) and the argmin of exactly those over the candidate axis; PillarDiscretization writes layer l of the chosen candidate at height l for each pillar axis. Ties / round-off in the argmin are not decided.",
+    TB + "; n-d convolution and np.pad models on concrete arrays; argmin as an opaque selector; symbolic gather",
+    "abstract interpretation on concrete small volumes of free symbols against a pointwise padding / box-sum oracle; small-scope enumeration of the column grammar justified by the filter's equivalence classes; symbolic gather for the write-back",
+    "DESIGN.md §5 C24",
+)
